@@ -14,6 +14,8 @@ PROP = 'C08'
 ROWS = {
     'isbn.to_isbn13': ('isbn', 'to_isbn13', 'isbn', ('isbn', 'to_isbn10'), lambda v: len(v) == 10),
     'isbn.to_isbn10': ('isbn', 'to_isbn10', 'isbn', ('isbn', 'to_isbn13'), lambda v: len(v) == 13),
+    'isbn.format_convert': ('isbn', 'format', 'isbn', None, lambda v: len(v) == 10),       # format(x, convert=True): the ISBN-13 layout
+    'isbn.validate_convert': ('isbn', 'validate', 'isbn', ('isbn', 'to_isbn10'), lambda v: len(v) == 10),
     'ismn.to_ismn13': ('ismn', 'to_ismn13', 'ismn', None, None),
     'issn.to_ean': ('issn', 'to_ean', 'ean', None, None),
     'cusip.to_isin': ('cusip', 'to_isin', 'isin', None, None),
@@ -88,6 +90,8 @@ def worker(unit, emit):
         optcp = []
         if row == 'issn.to_ean':
             opts = [{}] + [{'issue_code': '%02d' % rnd.randrange(100)} for _ in range(p['issue_codes'])]
+        if row in ('isbn.format_convert', 'isbn.validate_convert'):
+            opts = [{'convert': True}]
         if row == 'de.stnr.to_country_number':
             from stdnum.de import stnr
             opts = [{'region': r} for r in p['regions'] if stnr.is_valid(v, r)]
